@@ -122,30 +122,37 @@ theorem exists_iff_find (cfg : Cfg) (hg : cfg.good = true) (ar : Arith) (kind : 
 theorem errOr_ne_hang (e : Bool) : errOr e ≠ .hang := by cases e <;> simp [errOr]
 
 /-- the reference never answers "hang" -/
-theorem spec_ne_hang (ar : Arith) (now : Int) (st : Spec.Store) (req : Req) :
-    (Spec.step ar now st req).2 ≠ .hang := by
+theorem specV_ne_hang (ar : Arith) (now : Int) (st : Spec.Store) (req : Req) :
+    (Spec.stepV ar now st req).2 ≠ .hang := by
   cases req with
-  | set c o items => simp only [Spec.step]; split <;> (try split) <;> (try split) <;> simp
-  | get keys => simp only [Spec.step]; split <;> simp
-  | getAll => simp only [Spec.step]; split <;> simp
-  | getByKeys keys => simp only [Spec.step]; split <;> simp
-  | shift keys => simp only [Spec.step]; split <;> simp
-  | del keys => simp only [Spec.step]; split <;> simp
-  | count => simp [Spec.step]
-  | isKey k => simp only [Spec.step]; split <;> simp
-  | areKeys keys => simp [Spec.step]
-  | isSwamp => simp [Spec.step]
+  | set c o items => simp only [Spec.stepV]; split <;> (try split) <;> (try split) <;> simp
+  | get keys => simp only [Spec.stepV]; split <;> simp
+  | getAll => simp only [Spec.stepV]; split <;> simp
+  | getByKeys keys => simp only [Spec.stepV]; split <;> simp
+  | shift keys => simp only [Spec.stepV]; split <;> simp
+  | del keys => simp only [Spec.stepV]; split <;> simp
+  | count => simp [Spec.stepV]
+  | isKey k => simp only [Spec.stepV]; split <;> simp
+  | areKeys keys => simp [Spec.stepV]
+  | isSwamp => simp [Spec.stepV]
   | inc ty k b c i1 i2 =>
-    simp only [Spec.step, Spec.incStep, Spec.incCore]
+    simp only [Spec.stepV, Spec.incStep, Spec.incCore]
     split
     · simp
     · split
       · simp
       · split <;> simp
-  | push pairs => simp only [Spec.step]; exact errOr_ne_hang _
-  | u32del pairs => simp only [Spec.step]; exact errOr_ne_hang _
-  | size k => simp only [Spec.step]; split <;> (try split) <;> simp
-  | hasVal k v => simp only [Spec.step]; split <;> (try split) <;> simp
+  | push pairs => simp only [Spec.stepV]; exact errOr_ne_hang _
+  | u32del pairs => simp only [Spec.stepV]; exact errOr_ne_hang _
+  | size k => simp only [Spec.stepV]; split <;> (try split) <;> simp
+  | hasVal k v => simp only [Spec.stepV]; split <;> (try split) <;> simp
+
+theorem spec_ne_hang (ar : Arith) (now : Int) (st : Spec.Store) (req : Req) :
+    (Spec.step ar now st req).2 ≠ .hang := by
+  unfold Spec.step
+  split
+  · simp
+  · exact specV_ne_hang ar now st req
 
 /-- no request hangs (`step_total`) -/
 theorem step_total (cfg : Cfg) (hg : cfg.good = true) (ar : Arith) (kind : Kind) (s : State)
@@ -179,6 +186,10 @@ def hEmptyLive : Hist := [(0, .size "k"), (0, .isSwamp)]
 def hArek : Hist := [(0, .areKeys ["k"])]
 def hCount : Hist := [(0, .count)]
 def hSetErr : Hist := [(0, .set false false [k5])]
+/-- a Set under the empty key -/
+def hKey : Hist := [(0, .set true true [{ key := "", val := .int .i64 5 }])]
+theorem validKey_k : validKey "k" = true := by decide
+theorem validKey_empty : validKey "" = false := by decide
 /-- `cur > ref` under an arithmetic in which no two numbers are ordered or equal (every operand a NaN) -/
 def hNan : Hist := [(0, .inc (.flt .f64) "k" 4607182418800017408 (some (.gt, 0)) none none)]
 
@@ -202,7 +213,7 @@ macro "kv_eval" "[" hs:Lean.Parser.Tactic.simpLemma,* "]" : tactic => `(tactic|
     Model.park, Model.applyIncMeta, Spec.incStep, Spec.incCore, Spec.incStart, Spec.applyIncMeta, numIsZero,
     numZero, numVal, numOf, numAdd, numCmp, numWrap, IntTy.wrap, IntTy.bits, IntTy.signed, condHolds, metaResp, flagMap, loadRec,
     k5, k5u, kNeg, kVoid, kS1, kS2, hSticky, hMeta, hTs, hVoid, hPushTyped, hSliceMerge, hDeadlock, hDelTyped,
-    hIncFail, hEmptyLive, hArek, hCount, hSetErr, hNan, Model.cmpArith, Model.negCmp, Model.isFltOrd, fltIsZero, ar0])
+    hIncFail, hEmptyLive, hArek, hCount, hSetErr, hNan, hKey, Model.stepCoreV, Spec.stepV, Req.badKey, validKey_k, validKey_empty, Model.cmpArith, Model.negCmp, Model.isFltOrd, fltIsZero, ar0])
 
 
 theorem wit_setErr (cfg : Cfg) (h : cfg.setErrSingle = false) : ¬ Holds cfg := by
@@ -244,6 +255,9 @@ theorem wit_incFail (cfg : Cfg) (h : cfg.incFailClean = false) : ¬ Holds cfg :=
 theorem wit_nanCond (cfg : Cfg) (h : cfg.fltCondDirect = false) : ¬ Holds cfg := by
   apply not_holds_of cfg ar0 .mem hNan
   cases h0 : cfg.resetsFlags <;> cases h1 : cfg.incFailClean <;> kv_eval [h, h0, h1]
+theorem wit_key (cfg : Cfg) (h : cfg.keyChecked = false) : ¬ Holds cfg := by
+  apply not_holds_of cfg ar0 .mem hKey
+  kv_eval [h]
 theorem wit_emptyLive (cfg : Cfg) (h : cfg.noEmptyLive = false) : ¬ Holds cfg := by
   apply not_holds_of cfg ar0 .mem hEmptyLive
   kv_eval [h]
@@ -291,7 +305,10 @@ theorem not_holds_of_not_good (cfg : Cfg) (h : cfg.good = false) : ¬ Holds cfg 
   | true =>
   cases h14 : cfg.fltCondDirect with
   | false => exact wit_nanCond cfg h14
-  | true => simp [Cfg.good, h1, h2, h3, h4, h5, h6, h7, h8, h9, h10, h11, h12, h13, h14] at h
+  | true =>
+  cases h15 : cfg.keyChecked with
+  | false => exact wit_key cfg h15
+  | true => simp [Cfg.good, h1, h2, h3, h4, h5, h6, h7, h8, h9, h10, h11, h12, h13, h14, h15] at h
 
 /-- non-vacuity: the repaired facts are good, the current ones are not; and the partial theorem's
     hypothesis is met by real histories (a create, a read and a delete raise no tag even with
@@ -300,12 +317,12 @@ def repaired : Cfg :=
   { resetsFlags := true, metaCompare := true, tsPositive := true, voidClears := true, pushChecksType := true,
     setSliceReplaces := true, u32delReleases := true, u32delChecksType := true, incFailClean := true,
     noEmptyLive := true, arekAllFalse := true, countMissingOk := true, setErrSingle := true, fltCondDirect := true,
-    saveReleasesImmediate := true, encoding := .gobOmitZero }
+    keyChecked := true, recreateKeepsPointer := true, saveReleasesImmediate := true, encoding := .gobOmitZero }
 def current : Cfg :=
   { resetsFlags := false, metaCompare := false, tsPositive := false, voidClears := false, pushChecksType := false,
     setSliceReplaces := false, u32delReleases := false, u32delChecksType := false, incFailClean := false,
     noEmptyLive := false, arekAllFalse := false, countMissingOk := false, setErrSingle := false, fltCondDirect := false,
-    saveReleasesImmediate := true, encoding := .gobOmitZero }
+    keyChecked := false, recreateKeepsPointer := false, saveReleasesImmediate := true, encoding := .gobOmitZero }
 example : repaired.good = true := by decide
 example : current.good = false := by decide
 example : (runM current ar0 (init .mem)
@@ -339,6 +356,9 @@ structure Facts where
   countMissingOk : Tri
   setErrSingle : Tri
   fltCondDirect : Tri
+  keyChecked : Tri
+  /-- write-buffer bookkeeping, invisible without a close (C05's subject) -/
+  recreateKeepsPointer : Tri
   saveReleasesImmediate : Tri
   /-- replies show every non-zero ExpiredAt (environment of the run, see `Arith.expNe0`; not part of
       the refinement statement, which holds for either value) -/
@@ -350,7 +370,8 @@ def hasUnknown (f : Facts) : Bool :=
   f.voidClears == .unknown || f.pushChecksType == .unknown || f.setSliceReplaces == .unknown ||
   f.u32delReleases == .unknown || f.u32delChecksType == .unknown || f.incFailClean == .unknown ||
   f.noEmptyLive == .unknown || f.arekAllFalse == .unknown || f.countMissingOk == .unknown ||
-  f.setErrSingle == .unknown || f.fltCondDirect == .unknown || f.saveReleasesImmediate == .unknown || f.wireExpNe0 == .unknown
+  f.setErrSingle == .unknown || f.fltCondDirect == .unknown || f.keyChecked == .unknown || f.recreateKeepsPointer == .unknown ||
+  f.saveReleasesImmediate == .unknown || f.wireExpNe0 == .unknown
 
 /-- the storage encoding does not occur in any request handler (it matters for C05 only) -/
 def cfgOf (f : Facts) : Cfg :=
@@ -360,7 +381,8 @@ def cfgOf (f : Facts) : Cfg :=
     u32delChecksType := f.u32delChecksType.isYes, incFailClean := f.incFailClean.isYes,
     noEmptyLive := f.noEmptyLive.isYes, arekAllFalse := f.arekAllFalse.isYes,
     countMissingOk := f.countMissingOk.isYes, setErrSingle := f.setErrSingle.isYes,
-    fltCondDirect := f.fltCondDirect.isYes, saveReleasesImmediate := f.saveReleasesImmediate.isYes, encoding := .gobOmitZero }
+    fltCondDirect := f.fltCondDirect.isYes, keyChecked := f.keyChecked.isYes,
+    recreateKeepsPointer := f.recreateKeepsPointer.isYes, saveReleasesImmediate := f.saveReleasesImmediate.isYes, encoding := .gobOmitZero }
 
 def findings (c : Cfg) : List String :=
   (if c.resetsFlags then [] else ["C06-sticky-changed-flags"]) ++
@@ -376,7 +398,8 @@ def findings (c : Cfg) : List String :=
   (if c.arekAllFalse then [] else ["C06-arekeysexist-missing-swamp-error"]) ++
   (if c.countMissingOk then [] else ["C06-count-missing-swamp-error"]) ++
   (if c.setErrSingle then [] else ["C06-set-error-entry-duplicated"]) ++
-  (if c.fltCondDirect then [] else ["C06-nan-condition-passes"])
+  (if c.fltCondDirect then [] else ["C06-nan-condition-passes"]) ++
+  (if c.keyChecked then [] else ["C06-unstorable-key-acknowledged"])
 
 def classify (f : Facts) : Verdict :=
   if hasUnknown f then .undetermined "a request-handler pattern of gateway.go / swamp.go / treasure.go was not recognised"
